@@ -11,7 +11,7 @@ package sliceio
 // calls, the rows supplied by its inputs equal the rows it returns.
 
 //@ func sliceio.(*multiReader).Read (ctx, out) (n, err)
-//@   requires m != nil && forall(i, 0, len(m.q), m.q[i] != nil)
+//@   requires m != nil && forall(i, 0, len(m.q), m.q[i] != nil) && out.len >= 0
 //@   may_panic
 //@   ensures  bounds: 0 <= n && n <= out.len
 //@   ensures  no-row-dropped: rowsSupplied == old(rowsSupplied) + n
